@@ -23,9 +23,10 @@ def verify(lid, name, prop):
     wt = "/tmp/wt/" + lid
     cmd = demo_cmd(wt, lid)
     rc1, out1 = sh(cmd, wt)
-    sh("git stash", wt)
+    # (git stash is shared between worktrees: use a patch file instead)
+    sh("git diff > /tmp/wt/%s.verify.diff && git apply -R /tmp/wt/%s.verify.diff" % (lid, lid), wt)
     rc0, out0 = sh(cmd, wt)
-    sh("git stash pop", wt)
+    sh("git apply /tmp/wt/%s.verify.diff" % lid, wt)
     rcp, outp = sh("/venv/bin/python -m pytest -q -p no:cacheprovider --timeout=900 --continue-on-collection-errors 2>&1 | tail -1", wt)
     print("demo with change rc=%d; without rc=%d; suite: %s" % (rc1, rc0, outp.strip()))
     ok = rc1 != 0 and rc0 == 0 and "1069 passed" in outp
